@@ -190,3 +190,11 @@ func Yield(thread string) {
 		YieldHook(thread)
 	}
 }
+
+// Override installs fn as the body of the package-level function name (engine only; a native
+// build gets the same effect from a build-time overlay of the file that defines it).
+func Override(name string, fn interface{}) {}
+
+// CatchExit runs f and reports whether it called os.Exit, and with which status. Natively the
+// process would end; harnesses that use it are confirmed by running the real binary.
+func CatchExit(f func()) (code int, exited bool) { f(); return 0, false }
